@@ -32,8 +32,8 @@ func init() {
 			c38Checkpoint(c)
 			c38NewDelegatorInitialised(c)
 			c38FundListConserved(c)
-	c38PaidIsTheZeroedCounter(c)
-	c38SettledBeforeStakeChanges(c)
+			c38PaidIsTheZeroedCounter(c)
+			c38SettledBeforeStakeChanges(c)
 		},
 	})
 	register(&Rule{
